@@ -240,6 +240,28 @@ func TestExh_C07(t *testing.T) {
 			}
 		}
 	}
+	// updates issued during the first request: from inside the handler of the plugin that is then
+	// struck, and from a plugin that disconnects while a healthy one holds the request
+	for _, q := range reqs {
+		for _, ft := range []Fault{
+			{Kind: "hang", UpdDuring: "handler"},
+			{Kind: "close", When: "during", UpdDuring: "handler"},
+			{Kind: "wrongtype", Type: 3, UpdDuring: "handler"},
+			{Kind: "cut", Dir: "p2r", K: 20, UpdDuring: "handler"},
+			{Kind: "error", ErrText: "c07 veto by plugin 20", ErrForm: "plain", UpdDuring: "handler"},
+		} {
+			c := mk(q.req, q.event, "", 0, false)
+			c.Plugins[1].Fault = ft
+			run(c)
+		}
+		for _, hold := range []int{50, 200} {
+			for _, holder := range []int{10, 30} {
+				c := mk(q.req, q.event, "", 0, false)
+				c.Plugins[1].Fault = Fault{Kind: "updrop", HoldIdx: holder, HoldMs: hold}
+				run(c)
+			}
+		}
+	}
 	// a protocol break answered to each of the five relays (every relay has its own copy of the
 	// "close the plugin, go on" code): wrong message type and undecodable response
 	for _, q := range []rq{{"create", 0}, {"update", 0}, {"stop", 0}, {"updatepod", 0}, {"event", 9}} {
